@@ -27,7 +27,17 @@
 #define T_TAGGED VARINT_ADAPTIVE_TAGGED
 
 void harness(void) {
+#ifdef WIDE_LIT
+    /* semi-concrete instance: N - 1 literal values that need 9 tagged bytes each and one symbolic value of that class */
+    VP_IN(uint64_t, wide);
+    VP_ASSUME(wide >= (1ull << 56));
+    uint64_t v[N];
+    for (unsigned i = 0; i < N; i++)
+        v[i] = 0xF000000000000000ull + 977ull * i;
+    v[N - 1] = wide;
+#else
     VP_IN_ARR(uint64_t, v, N);
+#endif
     VP_IN_ARR(uint8_t, init, MAXSIZE);
 #if MODE == 2
     varintAdaptiveDataStats s;
